@@ -1976,7 +1976,7 @@ class Color(object):
             return 255
         if v < 0:
             return 0
-        return int(v)
+        return int(ceil(v - 0.5))  # The nearest level (a tie goes down), not the level below.
 
     @property
     def hsl(self):
